@@ -1,5 +1,5 @@
 CONSTANTS MaxItems = 3
-Pads = {1, 8189, 8190, 8191, 8192, 262141, 262142, 262143, 262144}
+Pads = {1, 8190, 8191, 8192, 8193, 262142, 262143, 262144}
 INIT Init
 NEXT Next
 INVARIANTS TargetOk Layout Emitted
